@@ -104,6 +104,17 @@ void read_obj(Obj* p) {
   S->nreads++;
 }
 
+// Black-box self check from inside an open region: a tick taken now is later
+// than the region's start, so the mark must stay below it until the region is
+// closed (same thread: no visibility question).
+void self_check(const char* where) {
+  uint64_t t = S->epoch.tick();
+  yield_point();
+  uint64_t m = S->epoch.low_water_mark();
+  probe("reader_self_check");
+  if (m >= t) fail("early-reclaim", "reader-self-check", "reader T%d is inside a region (%s) that began before tick %llu, yet low_water_mark() = %llu: the region does not hold the mark back", tid(), where, (unsigned long long)t, (unsigned long long)m);
+}
+
 struct Lk {
   Accessor* acc;
   void lock() { if (acc) acc->lock(); else S->epoch.lock(); }
@@ -128,14 +139,14 @@ void release_acc(Accessor& a) {
 }
 
 // Leave a region that is `depth` deep; inner unlocks must not end the protection.
-void leave(Lk lk, Obj* p, int depth, int h) {
-  for (int d = depth; d > 1; d--) { lk.unlock(); read_obj(p); }
+void leave(Lk lk, Obj* p, int depth, int h, bool check = false) {
+  for (int d = depth; d > 1; d--) { lk.unlock(); read_obj(p); if (check) self_check("after an inner unlock"); }
   unhold(h);
   lk.unlock();
 }
 
 // returns false if the region was handed off (still open, accessor moved away)
-void region(int t, Accessor* acc, int depth, int reads, bool handoff) {
+void region(int t, Accessor* acc, int depth, int reads, bool handoff, bool check = false) {
   depth = depth < 1 ? 1 : depth > 3 ? 3 : depth;
   reads = reads < 1 ? 1 : reads > 4 ? 4 : reads;
   Lk lk{acc};
@@ -143,8 +154,10 @@ void region(int t, Accessor* acc, int depth, int reads, bool handoff) {
   Obj* p = S->cell.load(std::memory_order_acquire);
   int h = hold(p, t);
   read_obj(p);
-  for (int d = 1; d < depth; d++) { lk.lock(); probe("nested_lock"); read_obj(p); }
+  if (check) self_check("after lock");
+  for (int d = 1; d < depth; d++) { lk.lock(); probe("nested_lock"); read_obj(p); if (check) self_check("after a nested lock"); }
   for (int i = 1; i < reads; i++) read_obj(p);
+  if (check && reads > 1) self_check("after reading");
   if (handoff && acc) {
     Parcel pc;
     pc.acc = std::move(*acc);
@@ -154,7 +167,7 @@ void region(int t, Accessor* acc, int depth, int reads, bool handoff) {
     probe("region_handed_off");
     return;
   }
-  leave(lk, p, depth, h);
+  leave(lk, p, depth, h, check);
 }
 
 bool take_parcel(Parcel& out) {
@@ -252,15 +265,16 @@ bool is_writer_thread(const std::vector<Op>& ops) {
 
 void do_op(int t, const Op& op, bool writer) {
   int slot = (int)(op.c < 0 ? 0 : op.c % NSLOT);
+  bool check = op.c >= 0 && ((op.c / NSLOT) & 1);  // reader self check inside the region
   bool have_pool = t < MAXTH;
   switch (op.kind) {
     case K_REGION:
     case K_HANDOFF: {
       if (writer) break;  // a writer that waits for its own region would be client misuse
-      if (S->style == 0 || !have_pool) { if (S->style == 0) region(t, nullptr, (int)op.a, (int)op.b, false); break; }
+      if (S->style == 0 || !have_pool) { if (S->style == 0) region(t, nullptr, (int)op.a, (int)op.b, false, check); break; }
       Accessor& a = S->pool[t][slot];
       if (!a) { a = S->epoch.create_accessor(); note_index(a, true); }
-      region(t, &a, (int)op.a, (int)op.b, op.kind == K_HANDOFF);
+      region(t, &a, (int)op.a, (int)op.b, op.kind == K_HANDOFF, check);
       break;
     }
     case K_ADOPT:
@@ -302,12 +316,31 @@ void gen(Rng& r, Plan& p, const GenParams& gp) {
   int opid = 0;
   auto add = [&](int t, int kind, int64_t a, int64_t b, int64_t c) { Op o; o.kind = kind; o.a = a; o.b = b; o.c = c; o.id = opid++; p.threads[(size_t)t].push_back(o); };
   static const int depths[] = {1, 1, 1, 2, 2, 3};
+  // accessor-churn shape (style 1, a quarter of the runs): every reader keeps
+  // creating an accessor, using it for one region and releasing it again, so
+  // that a release of slot index X by one thread overlaps create_accessor() ->
+  // lock() on the recycled index X by another (seeded change C09-9: release()
+  // touched the slot after handing its index back)
+  bool churn = style == 1 && r.chance(1, 4);
+  p.cfg["churn"] = churn ? 1 : 0;
   for (int t = 1; t <= nreaders; t++) {
     int nops = (int)r.range(1, gp.thorough ? 6 : 4);
+    if (churn) {
+      if (nreaders < 2 && t == 1) { /* one reader cannot overlap with itself: still useful against the writer */ }
+      int npairs = (int)r.range(1, 3);
+      for (int i = 0; i < npairs; i++) {
+        int64_t slot = (int64_t)r.below(2);
+        if (r.chance(1, 4)) add(t, K_PAUSE, r.range(0, 12), 0, 0);
+        add(t, K_REGION, depths[r.below(6)], r.range(1, 3), slot + (r.chance(1, 2) ? NSLOT : 0));
+        add(t, K_ACC_RELEASE, 0, 0, slot);
+      }
+      continue;
+    }
     for (int i = 0; i < nops; i++) {
       int64_t depth = depths[r.below(6)], reads = r.range(1, 3), slot = (int64_t)r.below(NSLOT);
       if (r.chance(1, 6)) { add(t, K_PAUSE, r.range(0, 30), r.chance(1, 3) ? r.range(1, 200) : 0, 0); continue; }
-      if (style == 0) { add(t, K_REGION, depth, reads, 0); continue; }
+      if (r.chance(1, 3)) slot += NSLOT;  // self check
+      if (style == 0) { add(t, K_REGION, depth, reads, slot >= NSLOT ? NSLOT : 0); continue; }
       uint64_t x = r.below(20);
       if (x < 10) add(t, K_REGION, depth, reads, slot);
       else if (x < 13) add(t, K_HANDOFF, depth, reads, slot);
@@ -331,6 +364,7 @@ void run(const Plan& p) {
   State& s = *S;
   s.style = p.get("style", 0) ? 1 : 0;
   s.hb = p.get("hb", 0) != 0;
+  if (p.get("churn", 0)) probe("accessor_churn_shape");
   int nw = 0;
   for (size_t t = 1; t < p.threads.size(); t++) if (is_writer_thread(p.threads[t])) nw++;
   s.wstore = (p.get("wstore", 0) && nw == 1) ? 1 : 0;
